@@ -239,6 +239,12 @@ func read[EntityT entity.Interface](def Definition, wrapper func(e *Entity) Enti
 		}
 	}
 
+	// A reference has to be named after the entity it points to: the id of an entity is the id
+	// of its first operation, whatever name a remote chose to serve it under.
+	if len(ops) > 0 && ops[0].Id() != entity.RefToId(ref) {
+		return *new(EntityT), fmt.Errorf("reference %s does not match the id of the %s it holds (%s)", ref, def.Typename, ops[0].Id())
+	}
+
 	return wrapper(&Entity{
 		Definition: def,
 		ops:        ops,
